@@ -163,11 +163,13 @@ CLAIMED = {
          'convolution is the direct sum over the input rows x[(o + t*d - pa) / s] its taps meet, SAME gives n*s and VALID n*s + max(k_eff - s, 0) positions, and the CIRCULAR wrap adds up exactly '
          'the entries congruent to each position of the period; max pooling '
          'returns a bounding element of the window; Embed is a lookup; masked positions cannot influence normalisation statistics, deviations from the mean sum to zero, running averages at momentum '
-         '0 and 1. Tied to /repo per run: every layer of the property (Dense, DenseGeneral, Einsum, Conv 1-D/2-D, ConvLocal, ConvTranspose, Embed, pooling, LayerNorm / RMSNorm / GroupNorm / '
+         '0 and 1; which elements share their statistics: the model computes the reduction groups of a whole layer from the shape and the axes (row-major flat index <-> multi-index are inverse '
+         'bijections; the groups partition the elements; LayerNorm / RMSNorm / InstanceNorm elements share a group iff they agree on every non-reduced axis; GroupNorm elements iff they are in the '
+         'same batch row and their channels (flat index mod C) lie in the same block of C/G channels). Tied to /repo per run: every layer of the property (Dense, DenseGeneral, Einsum, Conv 1-D/2-D, ConvLocal, ConvTranspose, Embed, pooling, LayerNorm / RMSNorm / GroupNorm / '
          'InstanceNorm / BatchNorm, Dropout) in Linen and NNX with explicit integer parameters is compared with an independent numpy direct-sum reference and Linen with NNX; the modelled '
-         'layers are also compared with the model in Coq, the outputs of LayerNorm / RMSNorm / GroupNorm / InstanceNorm included (square-root free: (y - b)^2 (var + eps) = s^2 (x - mean)^2 with the sign of s (x - mean), per reduction group).',
+         'layers are also compared with the model in Coq, the outputs of LayerNorm / RMSNorm / GroupNorm / InstanceNorm included (square-root free: (y - b)^2 (var + eps) = s^2 (x - mean)^2 with the sign of s (x - mean), over the reduction groups the model derives from shape and axes).',
     note='Trusted: Coq kernel, vm_compute, harness (numpy reference c12_ref.py), jaxcompat, float64 arithmetic of XLA on small integers. NOT proved / not modelled: DenseGeneral and Einsum axis '
-         'arithmetic, 2-D ConvTranspose, 3-D convolutions, ConvLocal, Dropout: oracle-only; the reduction groups of the normalisation layers are computed by the harness. Outputs at masked positions and windows '
+         'arithmetic, 2-D ConvTranspose, 3-D convolutions, ConvLocal, Dropout: oracle-only; for tensors above 256 elements the reduction groups of the normalisation layers are computed by the harness. Outputs at masked positions and windows '
          'entirely in the padding (0/0) are unspecified and compared as the code gives them. dtype promotion, precision, axis_name not covered. No axioms.',
     technique='Coq proof (index arithmetic of padding / strides, non-interference, rational statistics) + per-run correspondence by vm_compute + independent direct-sum reference on the real code',
     ref='DESIGN.md section 5, C12'),
@@ -251,11 +253,12 @@ CLAIMED = {
     ref='DESIGN.md section 5, C19'),
   'C20': dict(
     text='Theorems: pad_shard_unpad returns map f x for every batch size, device count >= 1 and min_device_batch (padding arithmetic as coded, chunking lemmas shared with C10); '
-         '_invert_perm is the inverse permutation; prefetch_to_device (as repaired) yields the items in order then stop/the exception for every length, failing position and '
+         '_invert_perm is the inverse permutation; shard is the (d, n) reshape whose rows concatenate to the input, stack_forest is the transposition of the forest, onehot has entry (i, j) = on exactly '
+         'when j is label i, so a label in [0, num_classes) lights exactly one position and any other none, for every label value and number of classes; prefetch_to_device (as repaired) yields the items in order then stop/the exception for every length, failing position and '
          'size >= 1; PrefetchIterator as a labelled transition system (next outside the lock, put/wake/fail/get critical sections) satisfies, for EVERY schedule, that the '
          'consumer has seen a prefix of the items in order followed - only after all of them - by StopIteration or the source\'s exception (inductive invariant). '
          'Tied to /repo per run: a cooperative threading substitute drives the real PrefetchIterator through all schedules of small sources (thousands), each recorded '
-         'interleaving is replayed in the Coq transition system; grids for padding, scan_in_dim vs nested loops, reshapes.',
+         'interleaving is replayed in the Coq transition system; grids for padding, scan_in_dim vs nested loops, reshapes (shard / stack_forest / onehot also against the model, onehot over 7 integer label dtypes and up to 1000 classes).',
     note='Trusted: Coq kernel, vm_compute, harness incl. coop.py (cooperative scheduler), jaxcompat. Not exhibited by the model: OS preemption inside a critical section, '
          'liveness (fairness). scan_in_dim beyond the permutation lemma is checked by oracle only. F5 and F6 fixed in /repo. No axioms.',
     technique='Coq proof (transition-system invariant over all schedules; list/arith lemmas) + systematic schedule exploration replayed in the model by vm_compute',
